@@ -117,6 +117,13 @@ func (c *Conn) Close() error {
 	return nil
 }
 
+// IsClosed reports whether the server has closed the connection (safe in the free-running pass).
+func (c *Conn) IsClosed() bool {
+	c.mu.Lock()
+	defer c.mu.Unlock()
+	return c.Closed
+}
+
 type addr struct{}
 
 func (addr) Network() string { return "mem" }
